@@ -47,10 +47,10 @@ _RF = {}
 
 
 def refresh_functions_cached(index, cls):
-    k = (id(index), cls.name)
-    if k not in _RF:
-        _RF[k] = refresh_functions(index, cls)
-    return _RF[k]
+    store = index.__dict__.setdefault("_refresh_functions", {})    # on the Index itself: an id() key is reused after gc
+    if cls.name not in store:
+        store[cls.name] = refresh_functions(index, cls)
+    return store[cls.name]
 
 
 def run(index, tier="quick", seed=0) -> Result:
